@@ -144,6 +144,10 @@ def run(path, rlimit=30, multiple_errors=10, threads=8, timeout=900, extra=()):
                 break
         if kind is None:
             res["undecided"] = "unclassified verus error (treated as front-end): " + msg
+            for sp in prim:
+                if sp.get("file_name", "").endswith(os.path.basename(path)):
+                    res.setdefault("frontend", []).append({"message": msg, "byte_start": sp["byte_start"], "byte_end": sp["byte_end"],
+                                                           "line": sp["line_start"]})
             continue
         if kind == "precondition":
             base = os.path.basename(path)
